@@ -482,7 +482,7 @@ func (g *gen) adoptrace(i int, seed uint64) *scenario {
 		switch r.Intn(5) {
 		case 0:
 			l.Op = "steal"
-			sc.Features = append(sc.Features, "stolen-after-cache")
+			sc.Features = append(sc.Features, "stolen-after-cache", "ownership-edit-after-cache")
 		case 1:
 			l.Op, l.Data = "relabel", J{"app": "moved"}
 			sc.Features = append(sc.Features, "relabelled-after-cache")
